@@ -1,4 +1,4 @@
 From Coq Require Extraction ExtrOcamlBasic.
-From GV Require Import Common.Outcome C15.Model C15.Run.
+From GV Require Import Common.Outcome C15.Model C15.EppModel C15.Run.
 Extraction Language OCaml.
-Extraction "model.ml" run_eco run_eco_fixed run_avoid run_gc run_row orders orun oinit all_done round_robin glue_n_of_nat.
+Extraction "model.ml" run_eco run_eco_fixed run_avoid run_gc run_row run_epp orders orun oinit all_done round_robin glue_n_of_nat.
